@@ -506,7 +506,8 @@ def run(prop, tier):
         os.makedirs(uwd, exist_ok=True)
         umc, utr, ucases, uobs = url_check.collect("quick", uwd, seed)
         for f in utr.marked["FAIL"]:
-            asked = sorted(c for c in f["clauses"] if c in ("C12_EveryLoginIsAsked", "C12_OverlappingLoginsEachAsked"))
+            # "asked with the same shared secret ... and the server's public key": every request carries exactly one serverId, this connection's hash
+            asked = sorted(c for c in f["clauses"] if c in ("C12_EveryLoginIsAsked", "C12_OverlappingLoginsEachAsked", "C12_OneServerId", "C12_ServerIdIsHash"))
             if asked:
                 o = uobs[f["line"] - 1]
                 rep.violation("C01 %s [%s logins claiming %s]" % ("+".join("C01_" + c[4:] for c in asked), o["vec"]["kind"], url_check.show_name(o["vec"]["name"])),
